@@ -217,3 +217,10 @@ Proof.
       * destruct (Lc i' ac' Gi) as (ci & h & R). exists ci, h. exact R.
     + exact Ls.
 Qed.
+
+Lemma conn_par_nonempty : forall st a i ac, Link st a -> nget (aconns a) i = Some ac -> ac_peer ac = None ->
+  exists x l, a_par a (Conn i) = x :: l.
+Proof.
+  intros st a i ac [Lc _] Ga Ap. destruct (Lc i ac Ga) as (ci & h & _ & Gh & _ & _ & _ & Hp).
+  rewrite (a_par_leaf a (Conn i) h eq_refl Gh), (Hp Ap). destruct (ac_allow ac); eexists; eexists; reflexivity.
+Qed.
